@@ -285,7 +285,7 @@ def check_case(case):
                 res.fail(f'strict/attribute-created/op={k}', f'{detail}: __dict__ gained {sorted(set(obj.__dict__) - keys_before)}, '
                          f'attributes {obj.__dict__["_attributes"][n_attrs_before:]}')
             elif isinstance(out.exc, AttributeError) and "Did you mean: '" in str(out.exc) and \
-                    str(out.exc).split("Did you mean: '")[1].split("'")[0] not in CO.value_names(obj) + list(vs):
+                    str(out.exc).split("Did you mean: '")[1].split("'")[0] not in CO.value_names(obj):
                 # "reported with the closest variable": a suggestion, when there is one, names a variable of the object
                 res.fail('strict/suggestion-is-not-a-variable', f'{detail}: message {out.exc}; variables {CO.value_names(obj)}')
             elif op[1][0] == 'near' and vs:
